@@ -257,17 +257,17 @@ static struct Register {
 	Register() {
 		Cfg c;
 #if SEL(0)
-		addUnit<TList<MT> >("C16/CallbackList/multi", 0, c, 4, 6, 1, 2);
+		addUnit<TList<MT> >("C16/CallbackList/multi", 0, c, 4, 7, 1, 2);
 #endif
 #if SEL(1)
-		addUnit<TDisp<VThreading> >("C16/EventDispatcher/vmutex", 0, c, 4, 6, 1, 2);
+		addUnit<TDisp<VThreading> >("C16/EventDispatcher/vmutex", 0, c, 4, 7, 1, 2);
 #endif
 #if SEL(2)
-		addUnit<TQueue<MT> >("C16/EventQueue/multi", 0, c, 4, 6, 1, 2);
+		addUnit<TQueue<MT> >("C16/EventQueue/multi", 0, c, 4, 7, 1, 2);
 #endif
 #if SEL(3)
-		addUnit<THeterList<MT> >("C16/HeterCallbackList/multi", 0, c, 4, 5, 1, 2);
-		addUnit<THeterDisp<ST> >("C16/HeterEventDispatcher/single", 0, c, 4, 5, 1, 2);
+		addUnit<THeterList<MT> >("C16/HeterCallbackList/multi", 0, c, 4, 6, 1, 2);
+		addUnit<THeterDisp<ST> >("C16/HeterEventDispatcher/single", 0, c, 4, 6, 1, 2);
 #endif
 	}
 } reg;
